@@ -441,6 +441,16 @@ def monitors(p, o):
                 bad.append(('kth_resume_time', 'F11', 'routine %d resumption %d on clock %s: beats %s, expected start %s + yields %s = %s'
                             % (rid, k, c, beats, b0, [str(y) for y in ys[:k]], exp)))
                 break
+        # seconds on a TempoClock whose tempo is never changed in the run: s_k = s_0 + (sum of deltas) / tempo
+        c0 = lst[0][1]
+        if c0 not in ('S', 'A') and not any(e[0] == 'tempo' and e[2] == c0[1] and e[4] for e in ev):
+            tp = F(p['tempos'][c0[1]]) or F(1)
+            for (k, c, secs, beats) in lst:
+                exp = lst[0][2] + sum(ys[:k], F(0)) / tp
+                if secs != exp:
+                    bad.append(('kth_resume_time_seconds', None, 'routine %d resumption %d on TempoClock %d (tempo %s, never changed): seconds %s, expected %s'
+                                % (rid, k, c0[1], tp, secs, exp)))
+                    break
         if rid in plays:
             c, T, org = plays[rid]
             if lst[0][2] != T:
